@@ -12,13 +12,13 @@ LEVEL = "exploration"
 RULE = ("protocol-conformant libovni programs (1-3 threads of one process, turn-based so the global order is "
         "scripted): proc_init, thread_init, require, add_cpu, OHx, then events that are legal under the "
         "reference model (bursts incl. jumbo bursts, marks defined through the mark API, OHp/OHr/OHc/OHw, OAs, "
-        "regions and tasks of required models), clocks from ovni_clock_now(), OHe, flush, thread_free, proc_fini; "
+        "regions and tasks of required models, attribute sets and ovni_attr_flush at generated points), clocks from ovni_clock_now(), OHe, flush, thread_free, proc_fini; "
         "half of the programs put a filler jumbo burst so that later events cross the 2 MiB buffer boundary, "
         "including jumbo events of every total size MAX-40..MAX-1 on an empty or one-event buffer; 40% of the runs under a shim that turns every write() into a real short write.  Oracle: "
         "(1) every stream.obs passes the independent validator (header, tiling, non-decreasing clocks, OF[ / OF] "
         "strictly alternating, never nested or left open) and equals the emit log; (2) stream.json is complete "
         "(version 3, part, tid, pid, loom, app_id, require, lib.version/commit, finished = 1, the CPUs added); "
-        "(3) ovniemu -l exits 0.  Non-trivial = an automatic flush happened; distinct = script.")
+        "(3) ovniemu -l exits 0.  Plus free-running conformant programs of 2-8 threads with multi-MiB streams whose thread_free calls are released together (direct and OVNI_TMPDIR), same oracle.  Non-trivial = an automatic flush happened; distinct = script.")
 ASSUMPTIONS = ["turn-based execution: ovni_clock_now() is monotonic across threads of the process (CLOCK_MONOTONIC)"]
 
 MAX = rt.MAX_EV_BUF
@@ -57,8 +57,14 @@ def programs(draw):
             else:
                 delta = draw(st.integers(1, 40))
             fill.append([t, pos, mode, delta, draw(st.integers(0, 1))])
+    # attribute API: sets and attr_flush at generated positions (incl. right before thread_free)
+    attrs = []
+    for _ in range(draw(st.integers(0, 3))):
+        t = draw(st.integers(0, len(tr["streams"]) - 1))
+        nev = len(tr["streams"][t]["events"])
+        attrs.append([t, draw(st.integers(0, nev)), draw(st.sampled_from(["flush", "flush", "set"])), draw(st.integers(0, 50))])
     return {"trace": tr, "fill": fill, "short": draw(st.sampled_from([None, None, None, "half", "one"])),
-            "tmpdir": draw(st.integers(0, 3)) == 0}
+            "tmpdir": draw(st.integers(0, 3)) == 0, "attrs": attrs}
 
 
 def to_script(case):
@@ -90,6 +96,18 @@ def to_script(case):
     for (t, pos, mode, delta, pre) in case["fill"]:
         fills.setdefault((t, pos), []).append((mode, delta, pre))
     fill_level = [0] * len(streams)
+    attr_at = {}
+    for (t, pos, what, val) in case.get("attrs", []):
+        attr_at.setdefault((t, pos), []).append((what, val))
+
+    def attr_lines(i, k):
+        out = []
+        for (what, val) in attr_at.get((i, k), []):
+            if what == "flush":
+                out.append("T%d attr_flush" % i)
+            else:
+                out.append("T%d attr num %s %s" % (i, rt.hx("verif.t%d.v" % i), rt.hx(str(val))))
+        return out
 
     def account(i, size):
         if fill_level[i] + size >= MAX:
@@ -97,6 +115,7 @@ def to_script(case):
         else:
             fill_level[i] += size
     for (_clk, i, k, e) in evs:
+        lines += attr_lines(i, k)
         for (mode, delta, pre) in fills.get((i, k), []):
             if mode == "near":
                 n = MAX - delta - fill_level[i] - 16
@@ -129,6 +148,7 @@ def to_script(case):
             account(i, 12 + len(phex) // 2)
     for i, s in enumerate(streams):
         lines.append("T%d flush" % i)
+        lines += attr_lines(i, len(s["events"]))      # after the last event: e.g. attr_flush just before thread_free
         lines.append("T%d free" % i)
     lines.append("P fini")
     return lines
@@ -202,6 +222,63 @@ def run(case, ctx):
         ctx.rmdir(d)
 
 
+@st.composite
+def concurrent(draw):
+    """2-8 free-running threads of one process, each following the protocol on
+    the virtual CPU with a multi-MiB stream, thread_free released by a barrier."""
+    nth = draw(st.integers(2, 8))
+    return {"n": nth, "sizes": [draw(st.integers(200000, MAX - 5000)) for _ in range(nth)],
+            "bursts": [draw(st.integers(0, 40)) for _ in range(nth)], "tmpdir": draw(st.sampled_from([True, True, False]))}
+
+
+def run_concurrent(case, ctx):
+    n = case["n"]
+    lines = ["MODE free", "P init 1 %s 5" % rt.hx("node.1")]
+    for t in range(n):
+        w = "T%d " % t
+        lines.append(w + "init %d" % (300 + t))
+        lines.append(w + "cpu %d %d" % (t, 10 + t))
+        lines.append(w + "ev %s now %s" % (rt.hx("OHx"), T.P("iiQ", -1, -1, 0)))
+        for _ in range(case["bursts"][t]):
+            lines.append(w + "ev %s now" % rt.hx("OB."))
+        lines.append(w + "jumbo %s now %d %d" % (rt.hx("OB."), case["sizes"][t], t))
+        lines.append(w + "ev %s now" % rt.hx("OB."))
+        lines.append(w + "ev %s now" % rt.hx("OHe"))
+        lines.append(w + "flush")
+        lines.append(w + "barrier")
+        lines.append(w + "free")
+    lines.append("P fini")
+    d = ctx.newdir()
+    try:
+        rr = rt.run_script(ctx.shared["rtdrv"], lines, d, tmpdir_mode=case["tmpdir"], cpu_s=120, wall_s=300)
+        if rr.res.kind != "ok":
+            raise Violation("conformant concurrent program did not finish: %s" % rr.res.brief())
+        for t in range(n):
+            sd = os.path.join(rr.tracedir, "loom.node.1", "proc.5", "thread.%d" % (300 + t))
+            try:
+                data = open(os.path.join(sd, "stream.obs"), "rb").read()
+            except OSError as e:
+                raise Violation("thread %d left no stream: %s" % (t, e))
+            evs, probs = obs.validate_stream(data)
+            if probs:
+                raise Violation("thread %d stream violates the trace specification: %s" % (t, "; ".join(probs[:3])))
+            prob = rt.match_stream(rt.expected_stream(lines, rr, "T%d" % t), evs)
+            if prob:
+                raise Violation("thread %d: %s" % (t, prob))
+            mp = check_meta(os.path.join(sd, "stream.json"), {"tid": 300 + t, "pid": 5, "loom": "node.1", "app": 1,
+                                                               "require": {"ovni": "1.1.0"}, "cpus": [[t, 10 + t]]}, None)
+            if mp:
+                raise Violation("thread %d metadata: %s" % (t, mp))
+        os.makedirs(os.path.join(rr.tracedir, "cfg"), exist_ok=True)
+        r = tools.emu(ctx.b("asan"), rr.tracedir, ("-l",))
+        if not r.ok:
+            raise Violation("ovniemu -l rejects the trace of a conformant concurrent program: %s" % r.brief())
+        return {"nt": True, "cls": ["concurrent:%d" % n, "tmpdir" if case["tmpdir"] else "direct"],
+                "sample": {"threads": n, "tmpdir": case["tmpdir"], "head": lines[:10]}}
+    finally:
+        ctx.rmdir(d)
+
+
 def enum_window(ctx):
     """Exhaustive sweep: jumbo total size MAX-40..MAX-1 x buffer {empty, one event}."""
     base = {"streams": [{"loom": "node.1", "pid": 5, "tid": 77, "app": 1, "cpus": [[0, 0]],
@@ -213,4 +290,6 @@ def enum_window(ctx):
 
 def parts(tier):
     return [Part("jumbo-window-sweep", run, enum=enum_window),
-            Part("programs", run, strategy=lambda ctx: programs(), budget={"quick": 2500, "thorough": 40000})]
+            Part("programs", run, strategy=lambda ctx: programs(), budget={"quick": 2500, "thorough": 40000}),
+            Part("concurrent-programs", run_concurrent, strategy=lambda ctx: concurrent(), budget={"quick": 120, "thorough": 2500},
+                 replay_any=20)]
